@@ -9,4 +9,4 @@ for id in "$@"; do
   echo "exit=$code"
 done
 rm -f /tmp/trypatch.$$.out
-git -C /repo checkout -- . && git -C /repo status --short | head -3
+git -C /repo checkout -- . && git -C /repo clean -fdq && git -C /repo status --short | head -3
